@@ -79,11 +79,43 @@ def all_cases(tier):
     return itertools.chain(*its)
 
 
+def nested_cases():
+    """dependencies that cross the boundary of a DAG called inside the DAG (argument stubs): repeated calls of one inner DAG, every
+    completion order; oracle = reference interpreter (values received by the library calls and returned values)"""
+    from . import c20
+    for cc in c20.cases("quick"):
+        if cc.get("fam") in ("R", "C"):
+            yield dict(kind="nested", prog=cc["prog"], local_subs=cc.get("local_subs", False))
+
+
+def run_nested(acc, c):
+    from ..prog import run_program
+    run_program(acc, {"prog": c["prog"], "kind": "nested", "local_subs": c["local_subs"]}, c["prog"], [(0,), (3,)], ["mc3"], (False,), explore_all=True,
+                tie_budget=0, max_execs=300, local_subs=c["local_subs"])
+    acc.mark_nontrivial(("nested", repr(c["prog"]["body"])[:300]))
+
+
 def run_shard(tier, k, n, acc):
-    for c in shard_iter(all_cases(tier), k, n, acc):
-        run_case(acc, c, MONITORS, nontrivial)
+    import itertools
+    for c in shard_iter(itertools.chain(all_cases(tier), nested_cases()), k, n, acc):
+        if c.get("kind") == "nested":
+            run_nested(acc, c)
+        else:
+            run_case(acc, c, MONITORS, nontrivial)
 
 
 def replay(v):
-    res, viols = replay_case(v["case"], MONITORS, v["prefix"])
+    c = v["case"]
+    if c.get("kind") == "nested":
+        from .. import harness as H
+        from .. import ir
+        from ..acc import Acc
+        from ..prog import build, compare
+        a = Acc(ID, 0, 1, 600)
+        d, ns, src = build(c["prog"], c["config"], c["is_async"], c.get("local_subs", False))
+        args = tuple(c["args"])
+        res = H.run_controlled(lambda: d(*args), prefix=tuple(v["prefix"]), is_async=False)
+        compare(a, c, c["prog"], args, res, ir.ref_eval(c["prog"], args), src)
+        return a.violations, res.trace
+    res, viols = replay_case(c, MONITORS, v["prefix"])
     return viols, res.trace
